@@ -67,8 +67,19 @@ type cacheEntry struct {
 	LastAccess string           `json:"lastAccess,omitempty"`
 }
 
-func svcValue(name string) []byte   { return []byte("svc-value-of-" + name) }
-func cacheValue(name string) []byte { return []byte("cached-value-of-" + name) }
+// (the secret "eps" is EMPTY, at the service as in caches: an empty value is a value)
+func svcValue(name string) []byte {
+	if name == "eps" {
+		return []byte{}
+	}
+	return []byte("svc-value-of-" + name)
+}
+func cacheValue(name string) []byte {
+	if name == "eps" {
+		return []byte{}
+	}
+	return []byte("cached-value-of-" + name)
+}
 
 func gen(rng *rand.Rand, idx int) tcase {
 	c := tcase{Idx: idx, Scripts: map[string]script{}, Client: "scripted", Ctx: "background", Plain: rng.IntN(2) == 0,
@@ -310,7 +321,7 @@ func runCase(t *testing.T, r *evid.Run, c tcase, tmp string) {
 			switch s.Mode {
 			case "failN":
 				if attempts[q.Name] <= s.N {
-					return fakesvc.Behaviour{Fail: fakesvc.ErrInjected, Plain: c.Plain}
+					return fakesvc.Behaviour{Fail: failKind(c.Idx, q.Name), Plain: c.Plain}
 				}
 			case "timeoutN":
 				if attempts[q.Name] <= s.N {
@@ -318,7 +329,7 @@ func runCase(t *testing.T, r *evid.Run, c tcase, tmp string) {
 				}
 			case "failUntil":
 				if now < s.T {
-					return fakesvc.Behaviour{Fail: fakesvc.ErrInjected, Plain: c.Plain}
+					return fakesvc.Behaviour{Fail: failKind(c.Idx, q.Name), Plain: c.Plain}
 				}
 			case "hangUntil":
 				if now < s.T {
@@ -327,7 +338,7 @@ func runCase(t *testing.T, r *evid.Run, c tcase, tmp string) {
 			case "slow":
 				return fakesvc.Behaviour{Delay: s.T}
 			case "never":
-				return fakesvc.Behaviour{Fail: fakesvc.ErrInjected, Plain: c.Plain}
+				return fakesvc.Behaviour{Fail: failKind(c.Idx, q.Name), Plain: c.Plain}
 			}
 			return fakesvc.Behaviour{}
 		}
@@ -515,7 +526,7 @@ func runCase(t *testing.T, r *evid.Run, c tcase, tmp string) {
 			for _, d := range needed {
 				found := false
 				for _, h := range c.FileHas {
-					if h == d {
+					if h == d && len(svcValue(d)) > 0 { // (a secrets file cannot express an empty value: such an entry is absent)
 						found = true
 					}
 				}
@@ -796,4 +807,20 @@ func uncleanStructPrefixes(t *testing.T, r *evid.Run) {
 		}
 		st.Close()
 	}
+}
+
+
+// failKind: what a failing request of case idx fails with: a transport-like error, or one of the API's own
+// error classes (a policy that has not reached the server yet answers 403; a replica that lags answers 404):
+// all of them are failures to be retried while the caller's context lives.
+func failKind(idx int, name string) error {
+	switch (idx + len(name)) % 5 {
+	case 1:
+		return fmt.Errorf("get %q: %w", name, api.ErrAccessDenied)
+	case 2:
+		return fmt.Errorf("get %q: %w", name, api.ErrNotFound)
+	case 3:
+		return io.ErrUnexpectedEOF
+	}
+	return fakesvc.ErrInjected
 }
